@@ -455,10 +455,11 @@ struct AllTypes : public KeyParser
 };
 
 // ================================================================================================ seeds
-enum Entry { E_IMG_RFF = 0, E_IMG_STREAM, E_PD_RFF, E_PD_STREAM, E_DYN_RFF, E_PAR_RFF, E_MULTI, E_REG, E_KP, N_ENTRIES };
+enum Entry { E_IMG_RFF = 0, E_IMG_STREAM, E_PD_RFF, E_PD_STREAM, E_DYN_RFF, E_PAR_RFF, E_MULTI, E_REG, E_KP, E_DYN_STREAM, E_PAR_STREAM, E_HDR_PARSE, N_ENTRIES };
 static const char* ENTRY_NAMES[] = { "read_from_file<DiscretisedDensity>", "read_interfile_image(stream)", "ProjData::read_from_file", "read_interfile_PDFS(stream)",
                                      "read_from_file<DynamicDiscretisedDensity>", "read_from_file<ParametricVoxelsOnCartesianGrid>", "MultipleDataSetHeader::parse",
-                                     "read_registered_object", "KeyParser::parse" };
+                                     "read_registered_object", "KeyParser::parse", "read_interfile_dynamic_image(stream)", "read_interfile_parametric_image(stream)",
+                                     "InterfileImageHeader::parse" };
 static int entry_from_name(const std::string& n) { for (int i = 0; i < N_ENTRIES; ++i) if (n == ENTRY_NAMES[i]) return i; return -1; }
 
 struct Seed
@@ -669,6 +670,10 @@ struct Outcome
   bool is_projdata = false; long ntang = 0, nviews = 0, nseg = 0, ntof = 0; std::vector<long> nax; bool reads_ok = true; std::string read_err;
   // multi
   long nfiles = -1; std::vector<std::string> files;
+  // data of every data set of an accepted (dynamic / parametric / single) image: one hash per data set
+  std::vector<std::string> data_hashes;
+  // plain header parse (E_HDR_PARSE): what the header object says about its per-data-set tables
+  bool hdr_probe = false; std::string hdr_inconsistency; long hdr_tables_longer = 0;
 };
 
 static std::string canon_exam(const ExamInfo& e)
@@ -692,7 +697,93 @@ static std::string canon_image(const VoxelsOnCartesianGrid<float>& v, Outcome& o
   uint64_t h = 1469598103934665603ULL; double sum = 0; long n = 0;
   for (auto it = v.begin_all(); it != v.end_all(); ++it) { const float f = *it; h = vmc::fnv(&f, sizeof f, h); sum += f; ++n; } // a read of every element
   s << ";n=" << n << ";vals=" << std::hex << h << std::dec << ";sum=" << sum;
+  { std::ostringstream d; d.precision(9); d << n << ":" << std::hex << h << std::dec << ":" << sum; o.data_hashes.push_back(d.str()); }
   return s.str();
+}
+static std::string canon_dynamic(const DynamicDiscretisedDensity& d, Outcome& o)
+{
+  std::ostringstream c;
+  o.ndatasets = d.get_num_time_frames();
+  c << "frames=" << d.get_num_time_frames() << ";";
+  for (unsigned k = 1; k <= d.get_num_time_frames(); ++k)
+    {
+      const VoxelsOnCartesianGrid<float>* v = dynamic_cast<const VoxelsOnCartesianGrid<float>*>(&d.get_density(k));
+      if (!v) { c << "frame not voxels;"; continue; }
+      c << "[" << canon_image(*v, o) << ";" << canon_exam(v->get_exam_info()) << "]";
+    }
+  c << canon_exam(d.get_exam_info());
+  return c.str();
+}
+static std::string canon_parametric(const ParametricVoxelsOnCartesianGrid& d, Outcome& o)
+{
+  std::ostringstream c;
+  o.ndatasets = d.get_num_params();
+  for (unsigned k = 1; k <= d.get_num_params(); ++k)
+    {
+      VoxelsOnCartesianGrid<float> v(d.construct_single_density(k));
+      c << "[" << canon_image(v, o) << "]";
+    }
+  c << canon_exam(d.get_exam_info());
+  return c.str();
+}
+
+// Plain parse of an Interfile image header (what every image reader of interfile.cxx does first).  The probe looks at the
+// per-data-set tables BEFORE the library's post_processing() loops over them with get_num_datasets() as bound: if a table is
+// shorter, the library's loop would index it out of bounds (possibly inside the vector's capacity, where the sanitizer cannot
+// see it), so the probe records the inconsistency and rejects instead of calling the base class.
+struct ProbeImageHeader : public InterfileImageHeader
+{
+  std::string inconsistency; long longer = 0;
+  std::string tables(const char* when) const
+  {
+    const long nds = this->get_num_datasets(), nsf = (long)image_scaling_factors.size(), noff = (long)data_offset_each_dataset.size();
+    if (nds > nsf || nds > noff)
+      return std::string(when) + ": get_num_datasets() = " + std::to_string(nds) + " (number of time frames " + std::to_string(num_time_frames) + " x number of image data types " + std::to_string(num_image_data_types)
+             + ") but the 'image scaling factor' table has " + std::to_string(nsf) + " entries and the 'data offset in bytes' table has " + std::to_string(noff);
+    return std::string();
+  }
+  bool post_processing() override
+  {
+    inconsistency = tables("when post_processing() starts");
+    if (!inconsistency.empty()) return true;
+    return InterfileImageHeader::post_processing();
+  }
+};
+static std::string canon_header(ProbeImageHeader& h, Outcome& o)
+{
+  // consistency of the accepted header object: everything the readers of interfile.cxx index without a further check
+  const long nds = h.get_num_datasets(), nsf = (long)h.image_scaling_factors.size(), noff = (long)h.data_offset_each_dataset.size();
+  o.hdr_inconsistency = h.tables("after an accepted parse");
+  if (o.hdr_inconsistency.empty() && (h.matrix_size.size() < 3 || h.pixel_sizes.size() < 3))
+    o.hdr_inconsistency = "after an accepted parse: matrix_size has " + std::to_string(h.matrix_size.size()) + " and pixel_sizes " + std::to_string(h.pixel_sizes.size()) + " entries (the readers use 3)";
+  if (o.hdr_inconsistency.empty())
+    for (long k = 0; k < nds; ++k)
+      if ((long)h.image_scaling_factors[(size_t)k].size() < (long)h.matrix_size[2][0])
+        { o.hdr_inconsistency = "after an accepted parse: 'image scaling factor' of data set " + std::to_string(k + 1) + " has " + std::to_string(h.image_scaling_factors[(size_t)k].size()) + " entries for " + std::to_string(h.matrix_size[2][0]) + " planes"; break; }
+  const long nframes = (long)h.get_exam_info().time_frame_definitions.get_num_frames();
+  if (o.hdr_inconsistency.empty() && (nframes > nsf || nframes > noff))
+    o.hdr_inconsistency = "after an accepted parse: the exam info has " + std::to_string(nframes) + " time frames but the per-data-set tables have " + std::to_string(nsf) + " / " + std::to_string(noff) + " entries (the dynamic-image reader indexes them per frame)";
+  if (nsf > nds || noff > nds) o.hdr_tables_longer = 1;
+  std::ostringstream c; c.precision(7);
+  c << "datasets=" << nds << ";frames=" << h.num_time_frames << ";types=" << h.num_image_data_types << ";tables=" << nsf << "," << noff;
+  if (!o.hdr_inconsistency.empty()) return c.str();
+  o.is_image = true;
+  o.nx = h.matrix_size[0][0]; o.ny = h.matrix_size[1][0]; o.nz = h.matrix_size[2][0];
+  o.vx = h.pixel_sizes[0]; o.vy = h.pixel_sizes[1]; o.vz = h.pixel_sizes[2];
+  o.ndatasets = nds;
+  c << ";size=" << o.nx << "," << o.ny << "," << o.nz << ";vox=" << o.vx << "," << o.vy << "," << o.vz << ";file=" << h.data_file_name << ";type=" << (int)h.type_of_numbers.id << "/" << h.type_of_numbers.size_in_bytes()
+    << ";order=" << (h.file_byte_order == ByteOrder::little_endian ? "little" : "big");
+  for (long k = 0; k < nds; ++k)
+    {
+      c << ";set" << k + 1 << "=" << h.data_offset_each_dataset[(size_t)k] << ":";
+      uint64_t hh = 1469598103934665603ULL;
+      for (double f : h.image_scaling_factors[(size_t)k]) hh = vmc::fnv(&f, sizeof f, hh); // a read of every element
+      c << h.image_scaling_factors[(size_t)k].size() << "x" << std::hex << hh << std::dec;
+    }
+  for (size_t i = 0; i < h.first_pixel_offsets.size(); ++i) c << ";off" << i << "=" << h.first_pixel_offsets[i];
+  for (size_t i = 0; i < h.image_data_type_description.size(); ++i) c << ";descr" << i << "=" << h.image_data_type_description[i];
+  c << ";" << canon_exam(h.get_exam_info());
+  return c.str();
 }
 static std::string canon_projdata(const ProjData& pd, Outcome& o)
 {
@@ -766,17 +857,34 @@ static void run_entry(const Seed& S, int entry, const std::string& text, Outcome
           spit(g_mutant_file, text);
           unique_ptr<DynamicDiscretisedDensity> d(read_from_file<DynamicDiscretisedDensity>(g_mutant_file));
           if (!d) { o.cls = REJECTED_NULL; break; }
-          std::ostringstream c;
-          o.ndatasets = d->get_num_time_frames();
-          c << "frames=" << d->get_num_time_frames() << ";";
-          for (unsigned k = 1; k <= d->get_num_time_frames(); ++k)
-            {
-              const VoxelsOnCartesianGrid<float>* v = dynamic_cast<const VoxelsOnCartesianGrid<float>*>(&d->get_density(k));
-              if (!v) { c << "frame not voxels;"; continue; }
-              c << "[" << canon_image(*v, o) << ";" << canon_exam(v->get_exam_info()) << "]";
-            }
-          c << canon_exam(d->get_exam_info());
-          o.canon = c.str();
+          o.canon = canon_dynamic(*d, o);
+          o.cls = ACCEPTED;
+          break;
+        }
+        case E_DYN_STREAM: {
+          std::istringstream in(text);
+          unique_ptr<DynamicDiscretisedDensity> d(read_interfile_dynamic_image(in, g_tmp));
+          if (!d) { o.cls = REJECTED_NULL; break; }
+          o.canon = canon_dynamic(*d, o);
+          o.cls = ACCEPTED;
+          break;
+        }
+        case E_PAR_STREAM: {
+          std::istringstream in(text);
+          unique_ptr<ParametricVoxelsOnCartesianGrid> d(read_interfile_parametric_image(in, g_tmp));
+          if (!d) { o.cls = REJECTED_NULL; break; }
+          o.canon = canon_parametric(*d, o);
+          o.cls = ACCEPTED;
+          break;
+        }
+        case E_HDR_PARSE: {
+          std::istringstream in(text);
+          ProbeImageHeader h;
+          o.hdr_probe = true;
+          const bool ok = h.parse(in);
+          o.hdr_inconsistency = h.inconsistency;
+          if (!ok) { o.cls = REJECTED_NULL; break; }
+          o.canon = canon_header(h, o);
           o.cls = ACCEPTED;
           break;
         }
@@ -784,15 +892,7 @@ static void run_entry(const Seed& S, int entry, const std::string& text, Outcome
           spit(g_mutant_file, text);
           unique_ptr<ParametricVoxelsOnCartesianGrid> d(read_from_file<ParametricVoxelsOnCartesianGrid>(g_mutant_file));
           if (!d) { o.cls = REJECTED_NULL; break; }
-          std::ostringstream c;
-          o.ndatasets = d->get_num_params();
-          for (unsigned k = 1; k <= d->get_num_params(); ++k)
-            {
-              VoxelsOnCartesianGrid<float> v(d->construct_single_density(k));
-              c << "[" << canon_image(v, o) << "]";
-            }
-          c << canon_exam(d->get_exam_info());
-          o.canon = c.str();
+          o.canon = canon_parametric(*d, o);
           o.cls = ACCEPTED;
           break;
         }
@@ -929,6 +1029,7 @@ static void line_mutations(const Seed& S, const SeedLines& A, int i, bool with_k
 {
   auto add = [&](int op, int arg) { Mut m; m.op = op; m.line = i; m.arg = arg; v.push_back(m); };
   add(refp::OP_DEL, 0); add(refp::OP_DUP, 0); add(refp::OP_TRUNC_LINE, 0); add(refp::OP_TRUNC_LINE, 1);
+  if (S.kind != "reg" && i + 1 < (int)A.phys.size()) add(refp::OP_SWAP, 0); // whichever of two cooperating keys comes last wins: order of adjacent lines
   const LineInfo& I = A.info[i];
   if (I.cont || I.comment || I.blank || I.L.kw.empty()) return;
   if (I.L.has_assign && !I.ends_bs)
@@ -953,6 +1054,7 @@ static std::string describe(const Seed& S, const SeedLines& A, const Mut& m)
   if (m.op == refp::OP_KEYWORD) d += std::string(" variant ") + refp::keyword_variant_name(m.arg);
   if (m.op == refp::OP_ALIAS && m.arg < (int)S.aliases.size()) d += " keyword -> alias '" + S.aliases[m.arg].second + "'";
   if (m.op == refp::OP_TRUNC_LINE) d += m.arg ? " (newline dropped)" : " (newline kept)";
+  if (m.op == refp::OP_SWAP && m.line + 1 < (int)A.phys.size()) d += " with the next line ('" + short_text(A.phys[m.line + 1], 70) + "')";
   return d;
 }
 static std::string mutated_kw(const SeedLines& A, const Mutant& m)
@@ -970,6 +1072,7 @@ static std::string mutated_kw(const SeedLines& A, const Mutant& m)
 
 // ================================================================================================ oracles (run in the child)
 static std::map<std::string, refp::RefHeader> g_seed_ref;
+static std::map<std::string, std::vector<std::string>> g_seed_data; // "<seed>|<entry>" -> data hashes of the object read from the unmutated text
 
 static bool clean_number(const std::string& s, double& v)
 {
@@ -1013,6 +1116,7 @@ static void oracle_image(const Seed& S, int entry, const std::string& kase, cons
           return;
         }
     }
+  if (entry == E_HDR_PARSE) return; // a header object only: nothing has been read from the data file
   // data length
   long bpp;
   // 'data offset in bytes' only becomes a keyword through the 'type of data' line: the length is compared only when that line is untouched
@@ -1030,8 +1134,34 @@ static void oracle_image(const Seed& S, int entry, const std::string& kase, cons
   const long have_len = file_size(S.data_file);
   sh_count("oracle_data_length_checked");
   if (have_len < need)
-    sh_violation("clause=size_contradiction;" + ekey(entry) + ";what=data_file_shorter_than_header_announces", kase,
-                 "header announces " + vmc::str(need) + " bytes of data (offset + matrix size x bytes per pixel) but the data file has " + vmc::str(have_len) + " and the image was accepted");
+    {
+      sh_violation("clause=size_contradiction;" + ekey(entry) + ";what=data_file_shorter_than_header_announces", kase,
+                   "header announces " + vmc::str(need) + " bytes of data (offset + matrix size x bytes per pixel) but the data file has " + vmc::str(have_len) + " and the image was accepted");
+      return;
+    }
+  // data read back: when everything the mutant says about where and how the numbers are stored is what the seed says (same
+  // text for every such key, assigned consistently), every data set of the accepted object holds the numbers of the seed's object
+  {
+    std::vector<std::string> slots = { "name of data file", "type of data", "pet data type", "number format", "number of bytes per pixel", "imagedata byte order", "number of dimensions",
+                                       "number of time frames", "number of image data types", "matrix size[1]", "matrix size[2]", "matrix size[3]" };
+    for (long k = 1; k <= std::max(o.ndatasets, (long)S.ndatasets); ++k) { slots.push_back("data offset in bytes[" + std::to_string(k) + "]"); slots.push_back("image scaling factor[" + std::to_string(k) + "]"); }
+    bool same = !H.has("quantification units") && !H.has("data offset in bytes") && !H.has("image scaling factor") && H.saw_stop == R.saw_stop;
+    for (auto& sl : slots)
+      {
+        if (H.has(sl) != R.has(sl) || H.get(sl) != R.get(sl)) { same = false; break; }
+        auto d = H.distinct.find(sl); auto c1 = H.count.find(sl); auto c2 = R.count.find(sl);
+        if (H.has(sl) && (d == H.distinct.end() || d->second != 1 || c1 == H.count.end() || c2 == R.count.end() || c1->second != c2->second)) { same = false; break; }
+      }
+    auto b = g_seed_data.find(S.name + "|" + vmc::str(entry));
+    if (!same || b == g_seed_data.end()) { sh_count("oracle_data_read_back_unchecked"); return; }
+    sh_count("oracle_data_read_back_checked");
+    if (o.data_hashes != b->second)
+      {
+        std::string got, want; for (auto& x : o.data_hashes) got += x + " "; for (auto& x : b->second) want += x + " ";
+        sh_violation("clause=not_parsed_faithfully;" + ekey(entry) + ";what=data_read_back_differ_from_the_data_file;kind=" + S.kind, kase,
+                     "the mutant leaves every key that says where and how the numbers are stored as in the seed, the image was accepted, but its data sets (count:hash:sum) are " + got + "instead of " + want);
+      }
+  }
 }
 
 static void oracle_projdata(const Seed& S, int entry, const std::string& kase, const std::string& text, const Outcome& o)
@@ -1232,6 +1362,18 @@ static void judge(const Seed& S, const SeedLines& A, int entry, const Mutant& m,
       if (o.canon != base)
         { sh_violation("clause=keyword_equivalence;variant=" + variant + ";effect=different_object;kind=" + S.kind, kase, std::string(ENTRY_NAMES[entry]) + ": respelling the keyword '" + mutated_kw(A, m) + "' in a way that matching must ignore changed the object: " + first_diff(base, o.canon)); return; }
     }
+  if (o.hdr_probe)
+    {
+      sh_count("oracle_header_tables_checked");
+      if (o.hdr_tables_longer) { sh_count("header_tables_longer_than_get_num_datasets"); sh_observe("accepted Interfile image header whose per-data-set tables are LONGER than get_num_datasets() (harmless, not a violation)"); }
+      if (!o.hdr_inconsistency.empty())
+        {
+          sh_violation("clause=inconsistent_object;" + ekey(entry) + ";what=per_data_set_tables_shorter_than_get_num_datasets;kind=" + S.kind, kase,
+                       std::string("the Interfile image header object is internally inconsistent, ") + o.hdr_inconsistency
+                           + "; InterfileHeader::post_processing() and the image readers of interfile.cxx index these tables up to get_num_datasets() without a further check (out-of-bounds access)");
+          return;
+        }
+    }
   if (o.cls != ACCEPTED) return;
   if (o.is_image && (S.kind == "img" || S.kind == "dyn" || S.kind == "par") && entry != E_MULTI) oracle_image(S, entry, kase, text, o);
   if (o.is_projdata) oracle_projdata(S, entry, kase, text, o);
@@ -1403,7 +1545,7 @@ static bool baseline(vmc::Ctx& ctx, Seed& S)
   bool all = true;
   for (int e : S.entries)
     {
-      SH->status = -1; SH->text_a[0] = 0; SH->text_b[0] = 0;
+      SH->status = -1; SH->text_a[0] = 0; SH->text_b[0] = 0; SH->text_c[0] = 0;
       fflush(stdout); fflush(stderr);
       pid_t pid = fork();
       if (pid == 0)
@@ -1415,6 +1557,7 @@ static bool baseline(vmc::Ctx& ctx, Seed& S)
           SH->status = o.cls;
           snprintf(SH->text_a, sizeof SH->text_a, "%s", o.canon.c_str());
           snprintf(SH->text_b, sizeof SH->text_b, "%s", (o.what + " " + short_text(g_warn.buf, 300)).c_str());
+          { std::string dh; for (auto& x : o.data_hashes) dh += x + "\n"; snprintf(SH->text_c, sizeof SH->text_c, "%s", dh.c_str()); }
           _exit(0);
         }
       int status = 0;
@@ -1430,6 +1573,7 @@ static bool baseline(vmc::Ctx& ctx, Seed& S)
           continue;
         }
       S.base_canon[e] = SH->text_a;
+      g_seed_data[S.name + "|" + vmc::str(e)] = refp::physical_lines(SH->text_c);
     }
   std::vector<int> keep;
   for (int e : S.entries) if (S.base_canon.count(e)) keep.push_back(e);
@@ -1531,13 +1675,19 @@ int main(int argc, char** argv)
   warm_up_symbolizer();
   const bool th = ctx.thorough();
   ctx.rule = "one evaluation = one mutant text (seed written by the library x grammar-aware mutation) given to one public entry point in a forked child under ASan with an allocation cap and an alarm; "
-             "mutations per physical line: delete, duplicate, truncate after it (with/without newline), value := each of 24 alphabet members, index variants, 7 keyword respellings that matching must ignore, "
+             "mutations per physical line: delete, duplicate, swap with the next line, truncate after it (with/without newline), value := each of 24 alphabet members, index variants, 7 keyword respellings that matching must ignore, "
              "every alias; truncation at every byte; thorough: pairs (value replacement on a size-determining key, any line mutation); distinct/non-trivial = distinct (entry point, mutant text) different from the seed; "
+             "the seeds include every kind of Interfile image header the library writes (single, dynamic, parametric, multi-data-set) in both tiers, each read through its matching readers "
+             "(read_from_file<...>, read_interfile_dynamic_image / read_interfile_parametric_image on a stream) and through a plain InterfileImageHeader::parse whose per-data-set tables are compared with get_num_datasets(); "
              "part R: every registered name of 22 registries: default object -> parameter_info -> parse -> parameter_info";
   ctx.assume("outcome classes: accepted | rejected (null / false / stir::error() / any other exception); a crash, sanitizer report, refused allocation (single request > 64 MB or > 1 GB outstanding from an input <= 64 kB) or no result "
              "within 10 s (re-run alone with 60 s) is a violation");
   ctx.assume("accepted => sizes of the object == 'matrix size' keys of the mutant text as read by the harness' own reference reader (only when those keys are clean unsigned integers assigned consistently, no ${...}, "
              "labels unchanged) and data file length >= offset + product of sizes x bytes per pixel (only when data file name, number format and type of data are untouched: the offset keys exist only after the type-of-data line); otherwise counted as unchecked");
+  ctx.assume("plain InterfileImageHeader::parse: when post_processing() starts and after an accepted parse the 'image scaling factor' and 'data offset in bytes' tables must have at least get_num_datasets() entries "
+             "(and at least as many as the exam info has time frames), every data set's scaling factors at least one entry per plane; shorter = violation (the library indexes them unchecked), longer = counted only");
+  ctx.assume("data read back: when every key that says where and how the numbers are stored (data file, type of data, number format, bytes per pixel, byte order, dimensions, matrix sizes, numbers of time frames / image data types, "
+             "per-data-set offsets and scaling factors) has the seed's text, is assigned as often as in the seed and consistently, an accepted image must hold the numbers of the seed's image in every data set; otherwise counted as unchecked");
   ctx.assume("keyword respellings (case, extra blanks where a blank is, leading !, blank<->underscore/tab) and aliases must give an object identical to that of the unmutated text (canonical string: geometry, all values, exam info / parameter_info)");
   ctx.assume("KeyParser slot model (AllTypes seed): a removed line leaves the default, an untouched line its seed value, key[j] := v is stored at element j; the mutated line's own slot is not checked for value replacements");
   ctx.assume("parameter texts are compared modulo blank lines");
@@ -1614,13 +1764,18 @@ int main(int argc, char** argv)
       }
 
   // ---------------------------------------------------------------- part M: library-written seeds
-  struct Plan { std::string seed; std::vector<int> entries; bool bytes; std::vector<int> pair_entries; };
+  struct Plan { std::string seed; std::vector<int> entries; bool bytes; std::vector<int> pair_entries; std::vector<int> no_bytes_entries; };
   std::vector<Plan> plan;
   if (!th)
-    plan = { { "img", { E_IMG_RFF, E_IMG_STREAM }, true, {} }, { "pdfs", { E_PD_RFF }, false, {} }, { "pdfs_tof", { E_PD_STREAM }, false, {} }, { "spect", { E_PD_RFF }, true, {} },
-             { "multi", { E_MULTI }, true, {} }, { "alltypes", { E_KP }, true, {} } };
+    plan = { { "img", { E_IMG_RFF, E_IMG_STREAM, E_HDR_PARSE }, true, {} }, { "pdfs", { E_PD_RFF }, false, {} }, { "pdfs_tof", { E_PD_STREAM }, false, {} }, { "spect", { E_PD_RFF }, true, {} },
+             { "multi", { E_MULTI, E_DYN_RFF }, true, {} }, { "alltypes", { E_KP }, true, {} },
+             // every kind of Interfile image header the library writes, through the matching readers and the plain header parse
+             // (an accepted dynamic / parametric mutant costs a scanner look-up: byte truncation of these two readers is left to the thorough tier)
+             { "dyn", { E_DYN_RFF, E_DYN_STREAM, E_HDR_PARSE }, true, {}, { E_DYN_RFF, E_DYN_STREAM } },
+             { "par", { E_PAR_RFF, E_PAR_STREAM, E_HDR_PARSE }, true, {}, { E_PAR_RFF, E_PAR_STREAM } } };
   else
-    plan = { { "img", { E_IMG_RFF, E_IMG_STREAM }, true, { E_IMG_RFF } }, { "img_short", { E_IMG_RFF }, true, {} }, { "dyn", { E_DYN_RFF }, true, { E_DYN_RFF } }, { "par", { E_PAR_RFF }, true, {} },
+    plan = { { "img", { E_IMG_RFF, E_IMG_STREAM, E_HDR_PARSE }, true, { E_IMG_RFF } }, { "img_short", { E_IMG_RFF, E_HDR_PARSE }, true, {} },
+             { "dyn", { E_DYN_RFF, E_DYN_STREAM, E_HDR_PARSE }, true, { E_DYN_RFF, E_HDR_PARSE } }, { "par", { E_PAR_RFF, E_PAR_STREAM, E_HDR_PARSE }, true, { E_PAR_RFF, E_HDR_PARSE } },
              { "multi", { E_MULTI, E_DYN_RFF }, true, { E_MULTI } }, { "pdfs", { E_PD_RFF, E_PD_STREAM }, true, {} }, { "pdfs_tof", { E_PD_RFF, E_PD_STREAM }, true, { E_PD_STREAM } },
              { "pdfs_arccorr", { E_PD_RFF }, true, {} }, { "pdfs_E953", { E_PD_RFF }, true, {} }, { "spect", { E_PD_RFF, E_PD_STREAM }, true, { E_PD_RFF } }, { "alltypes", { E_KP }, true, {} } };
   const int NC = 16;
@@ -1643,7 +1798,8 @@ int main(int argc, char** argv)
                 }
               if (!usable || !S.base_canon.count(entry)) { ctx.count("work_units_skipped_seed_unusable"); continue; }
               std::vector<Mutant> muts;
-              collect(S, A, c, NC, pass == 0, pass == 0 && P.bytes, pass == 1 && S.kind != "kp", muts);
+              const bool no_bytes = std::find(P.no_bytes_entries.begin(), P.no_bytes_entries.end(), entry) != P.no_bytes_entries.end();
+              collect(S, A, c, NC, pass == 0, pass == 0 && P.bytes && !no_bytes, pass == 1 && S.kind != "kp", muts);
               exec_unit(ctx, S, A, entry, muts, P.seed + "/" + ENTRY_NAMES[entry] + "/" + vmc::str(c) + (pass ? "/pairs" : ""));
               ctx.maxi("deviation_completed", pass + 1);
             }
